@@ -20,7 +20,7 @@ Section Assemble.
   Hypothesis Hd : disjoint_prefixes pa pb.
 
   Theorem the_api_laws :
-    api_laws (the_api tag pa) (Vp pa) (Vp pb) clean (acc_p pa) (rh_p tag pa) (wh_p tag pa).
+    api_laws (the_api tag pa) (Vp pa) (Vp pb) clean (acc_p pa) (rh_p tag pa) (wh_p tag pa) nohid nohid.
   Proof using Ha Hb Hd.
     constructor.
     - apply osfs_law_infos_indep.
@@ -32,18 +32,18 @@ Section Assemble.
     - eapply osfs_law_hread; eassumption.
     - eapply osfs_law_hstat; eassumption.
     - eapply osfs_law_hclose_r; eassumption.
-    - eapply ex_law_mkdirall_new; eassumption.
+    - intros w p perm Hq Hwf Hdir Hnone _. eapply ex_law_mkdirall_new; eassumption.
     - eapply osfs_law_mkdirall_dir; eassumption.
     - eapply ex_law_chmod; eassumption.
     - eapply osfs_law_chtimes; eassumption.
     - eapply osfs_law_chown; eassumption.
     - eapply osfs_law_lchown; eassumption.
-    - eapply ex_law_symlink; eassumption.
-    - eapply osfs_law_openfile_new; eassumption.
+    - intros w t p Hq Hwf Hdir Hnone Ht Hacc _. eapply ex_law_symlink; eassumption.
+    - intros w p perm Hq Hwf Hdir Hnone _. eapply osfs_law_openfile_new; eassumption.
     - eapply osfs_law_openfile_trunc; eassumption.
     - eapply ex_law_hwrite; eassumption.
     - eapply osfs_law_hclose_w; eassumption.
-    - eapply ex_law_remove_leaf; eassumption.
+    - intros w p n Hq Hwf Hnlp Hp Hnc Hne _. eapply ex_law_remove_leaf; eassumption.
     - eapply osfs_law_removeall_leaf; eassumption.
     - eapply osfs_law_remove_none; eassumption.
     - eapply osfs_law_remove_nonempty; eassumption.
@@ -60,6 +60,10 @@ Section Assemble.
     - eapply osfs_law_user_lchown; eassumption.
     - eapply osfs_law_user_symlink; eassumption.
     - apply osfs_law_tnorm_idem.
+    - intros w p [].
+    - intros w p [].
+    - intros w p _ _ [].
+    - intros p. right. intros [].
   Qed.
 
   Theorem the_api_laws2 :
@@ -113,7 +117,7 @@ Section Concrete.
   Proof using Ha Hb Hd.
     intros B0 Hsmall w0 ops w Hinit Hrun.
     exact (c01_spec (the_api TBase pa) (the_api TBackup pb) (Vp pa) (Vp pb) clean clean
-             (acc_p pa) (acc_p pb) (rh_p TBase pa) (rh_p TBackup pb) (wh_p TBase pa) (wh_p TBackup pb)
+             (acc_p pa) (acc_p pb) (rh_p TBase pa) (rh_p TBackup pb) (wh_p TBase pa) (wh_p TBackup pb) nohid nohid
              B0 Lb Lb2 Lk Hsmall w0 ops w Hinit Hrun).
   Qed.
 
@@ -127,8 +131,8 @@ Section Concrete.
   Proof using Ha Hb Hd.
     intros B0 Hl Hs Hwf w HI.
     exact (rollback_spec (the_api TBase pa) (the_api TBackup pb) (Vp pa) (Vp pb) clean clean
-             (acc_p pa) (acc_p pb) (rh_p TBase pa) (rh_p TBackup pb) (wh_p TBase pa) (wh_p TBackup pb)
-             B0 Lb Lk Hl Hs Hwf w HI).
+             (acc_p pa) (acc_p pb) (rh_p TBase pa) (rh_p TBackup pb) (wh_p TBase pa) (wh_p TBackup pb) nohid nohid
+             B0 Lb Lk Hl Hs Hwf (loc_ok_nohid B0) w HI).
   Qed.
 
   (** every covered operation keeps the invariant *)
@@ -141,7 +145,7 @@ Section Concrete.
   Proof using Ha Hb Hd.
     intros B0 Hl Hs Hwf o w HI Hc.
     exact (step_spec (the_api TBase pa) (the_api TBackup pb) (Vp pa) (Vp pb) clean clean
-             (acc_p pa) (acc_p pb) (rh_p TBase pa) (rh_p TBackup pb) (wh_p TBase pa) (wh_p TBackup pb)
+             (acc_p pa) (acc_p pb) (rh_p TBase pa) (rh_p TBackup pb) (wh_p TBase pa) (wh_p TBackup pb) nohid nohid
              B0 Lb Lb2 Lk Hl Hs Hwf o w HI Hc).
   Qed.
 End Concrete.
@@ -163,6 +167,7 @@ Section Recoverable.
   Variables tnb tnk : str -> str.
   Variables accb acck : str -> str -> Prop.
   Variables rhb rhk whb whk : fhandle -> str -> nat -> Prop.
+  Variables hid anc : str -> Prop.
   Variable B0 : store.
 
   Lemma inv_recoverable_gen : forall w, Inv Vb Vk B0 w ->
@@ -186,7 +191,7 @@ Section Recoverable.
   Qed.
 
   Lemma recoverable_between_operations :
-    base_laws base Vb Vk tnb accb rhb whb -> base_laws2 base Vb Vk tnb accb rhb whb ->
+    base_laws base Vb Vk tnb accb rhb whb hid anc -> base_laws2 base Vb Vk tnb accb rhb whb ->
     backup_laws backup Vb Vk tnk acck rhk whk ->
     all_small B0 ->
     forall w0 ops w, initial Vb Vk tnb tnk accb acck B0 w0 -> good_run base backup Vb w0 ops w ->
@@ -199,7 +204,7 @@ Section Recoverable.
     intros HLb HLb2 HLk Hsmall w0 ops w Hinit Hrun.
     pose proof Hinit as (_ & _ & _ & HwfB & Hlinks & _ & _).
     apply inv_recoverable_gen.
-    eapply (good_run_inv base backup Vb Vk tnb tnk accb acck rhb rhk whb whk B0);
+    eapply (good_run_inv base backup Vb Vk tnb tnk accb acck rhb rhk whb whk hid anc B0);
       [exact HLb | exact HLb2 | exact HLk | exact Hlinks | exact Hsmall | exact HwfB | exact Hrun |].
     apply (initial_inv_spec Vb Vk tnb tnk accb acck B0 w0 Hinit).
   Qed.
@@ -232,7 +237,7 @@ Section Concrete2.
     intros B0 Hsmall w0 ops w Hinit Hrun.
     exact (recoverable_between_operations (the_api TBase pa) (the_api TBackup pb) (Vp pa) (Vp pb)
              clean clean (acc_p pa) (acc_p pb) (rh_p TBase pa) (rh_p TBackup pb)
-             (wh_p TBase pa) (wh_p TBackup pb) B0 Lb Lb2 Lk Hsmall w0 ops w Hinit Hrun).
+             (wh_p TBase pa) (wh_p TBackup pb) nohid nohid B0 Lb Lb2 Lk Hsmall w0 ops w Hinit Hrun).
   Qed.
 
   (** the invariant holds in every state reached from an initial one by
@@ -248,7 +253,7 @@ Section Concrete2.
     intros B0 Hsmall w0 ops w Hinit Hrun.
     pose proof Hinit as (_ & _ & _ & HwfB & Hlinks & _ & _).
     exact (good_run_inv (the_api TBase pa) (the_api TBackup pb) (Vp pa) (Vp pb) clean clean
-             (acc_p pa) (acc_p pb) (rh_p TBase pa) (rh_p TBackup pb) (wh_p TBase pa) (wh_p TBackup pb)
+             (acc_p pa) (acc_p pb) (rh_p TBase pa) (rh_p TBackup pb) (wh_p TBase pa) (wh_p TBackup pb) nohid nohid
              B0 Lb Lb2 Lk Hlinks Hsmall HwfB w0 ops w Hrun
              (initial_inv_spec (Vp pa) (Vp pb) clean clean (acc_p pa) (acc_p pb) B0 w0 Hinit)).
   Qed.
@@ -280,7 +285,7 @@ Section Concrete2.
   Proof using Ha Hb Hd.
     intros B0 Hl Hs Hwf w p HI Hnlp Hne Hcur Hfi Hpar0.
     exact (force_backup_spec (the_api TBase pa) (the_api TBackup pb) (Vp pa) (Vp pb) clean clean
-             (acc_p pa) (acc_p pb) (rh_p TBase pa) (rh_p TBackup pb) (wh_p TBase pa) (wh_p TBackup pb)
+             (acc_p pa) (acc_p pb) (rh_p TBase pa) (rh_p TBackup pb) (wh_p TBase pa) (wh_p TBackup pb) nohid nohid
              B0 Lb Lk Hl Hs Hwf w p HI Hnlp Hne Hcur Hfi Hpar0).
   Qed.
 
@@ -302,8 +307,8 @@ Section Concrete2.
   Proof using Ha Hb Hd.
     intros B0 Hl Hs Hwf w p HI Hnlp Hne Hcur Hfi Hpar0 r w1 ops w2 Hrun Hgood.
     exact (c17_spec (the_api TBase pa) (the_api TBackup pb) (Vp pa) (Vp pb) clean clean
-             (acc_p pa) (acc_p pb) (rh_p TBase pa) (rh_p TBackup pb) (wh_p TBase pa) (wh_p TBackup pb)
-             B0 Lb Lb2 Lk Hl Hs Hwf w p HI Hnlp Hne Hcur Hfi Hpar0 r w1 ops w2 Hrun Hgood).
+             (acc_p pa) (acc_p pb) (rh_p TBase pa) (rh_p TBackup pb) (wh_p TBase pa) (wh_p TBackup pb) nohid nohid
+             B0 Lb Lb2 Lk Hl Hs Hwf (loc_ok_nohid B0) w p HI Hnlp Hne Hcur Hfi Hpar0 r w1 ops w2 Hrun Hgood).
   Qed.
 End Concrete2.
 
